@@ -273,6 +273,13 @@ Definition dz_decode (d : dz_data) (l : dz_layer) (w : dz_world) (input : bytes)
     inl (dz_set_obuf l (dz_obuf l ++ da_out a), w, skipn (da_consumed a) input, da_rc a)
   else inr (l, w, c_HTP_ERROR).      (* no initialization means previous error on stream *)
 
+(* "inflate failed": LzmaDec_Free + zlib_initialized = NONE ("so as to clean zlib ressources after restart"), or inflateEnd *)
+Definition dz_fail_end (l : dz_layer) (w : dz_world) : dz_layer * dz_world :=
+  if dz_zinit l =? c_dz_COMPRESSION_LZMA then
+    let '(_, w) := dz_ask w QLzFree in (dz_set_zinit l c_dz_COMPRESSION_NONE, w)
+  else
+    let '(_, w) := dz_ask w QEnd in (l, w).
+
 (* what follows the decoding step in the loop body *)
 Definition dz_after (d : dz_data) (l : dz_layer) (rest : list dz_layer) (w : dz_world) (input : bytes) (rc : Z) : dz_step :=
   let rc := if (dz_avail_out l <? dz_BUF)%nat && (rc =? c_dz_Z_DATA_ERROR) then c_dz_Z_STREAM_END else rc in
@@ -283,11 +290,7 @@ Definition dz_after (d : dz_data) (l : dz_layer) (rest : list dz_layer) (w : dz_
       DzRet (dz_set_obuf l []) rest w crc
     else DzRet (dz_set_obuf l []) rest w c_HTP_OK
   else if negb (rc =? c_dz_Z_OK) then
-    let '(l, w) :=
-      if dz_zinit l =? c_dz_COMPRESSION_LZMA then
-        let '(_, w) := dz_ask w QLzFree in (dz_set_zinit l c_dz_COMPRESSION_NONE, w)
-      else
-        let '(_, w) := dz_ask w QEnd in (l, w) in
+    let '(l, w) := dz_fail_end l w in
     let w := if dz_fed l then w_set_late w true else w in
     match dz_restart_dec l (dd_bytes d) w with
     | (l, w, Some consumed) => DzRestart l rest (w_set_trace w true) consumed rc
@@ -502,9 +505,11 @@ Definition dz_response_headers (ce : option bytes) (w : dz_world) : dz_tx :=
 Definition dz_is_coded (cep : Z) : bool :=
   (cep =? c_dz_COMPRESSION_GZIP) || (cep =? c_dz_COMPRESSION_DEFLATE) || (cep =? c_dz_COMPRESSION_LZMA).
 
+Definition dz_data_of (data : option bytes) : dz_data := match data with None => dz_null | Some b => dz_some b end.
+
 (* extra: what other code (the chunked-framing parser) has added to response_message_len since the previous call *)
 Definition dz_process_body_data (t : dz_tx) (extra : Z) (data : option bytes) : dz_tx * Z :=
-  let d := match data with None => dz_null | Some b => dz_some b end in
+  let d := dz_data_of data in
   let w := tx_w t in
   let w := w_set_message w (w_message w + extra + dz_len d) in
   if dz_is_coded (tx_cep t) then
